@@ -15,6 +15,9 @@ CHECKS = {
  "C13": {
   "text": "Structural clauses of the container contract on MIR: ordered append-only write buffer replayed once in map order through add_part; add_part appends to the stream's part list; register_stream returns stored id or pre-push length; offset recorded before any write and every write_all(x) paired with f_offset += x.len() on all success paths; only add_part/serialize write the file; the footer serialiser's role sequence and loop nesting equals the deserialiser's; writer and reader of the big-endian length-prefixed integer agree in shape; empty parts return (empty,0) without I/O. Decides the structure that byte equality needs, not byte equality itself.",
   "ref": "DESIGN.md 4/C13", "note": TB, "technique": "static analysis: writer/reader sibling agreement over reconstructed expressions, path pairing rules, who-may-write queries on MIR"},
+ "C17": {
+  "text": "Rules over the CLI command bodies and their callees on MIR: no call inside a per-sample loop reaches a truncating open with a loop-invariant path (R1); every Ok return of create is dominated by a call that reaches the archive footer writer (R2); every Result in a command body or main is propagated and main returns Result (R3); the extraction loop iterates the request list or the archive-order prefix filter without reordering (R4); stdout and -o branches use the same per-sample writer (R5). Decides composition/exit-status structure; byte equality rests on C01.",
+  "ref": "DESIGN.md 4/C17", "note": TB, "technique": "static analysis: effect summaries (truncating open, footer write) over the call graph, loop-invariance, result-fate and dominance rules on MIR"},
 }
 PENDING = "check not built yet in this session (design exists in DESIGN.md); will be claimed once its rules run"
 NOT_APPLICABLE = {
